@@ -611,6 +611,332 @@ def run(chk: lib.Check):
         chk.coverage["render_configurations"] = dict(stats, total=len(rcases), ways=WAYS, ways_repeat_masks_only=REPEAT_ONLY,
                                                      models_built_per_way_from_one_specification_object=repeat_stats)
         lap("render-impl")
+
+        # ---------------- D. the cache handle as an OBJECT in any state, and every way of naming a LOCATION with every option
+        # Files with distinguishable content are planted in the configured place AND in decoy places (next to the model, at
+        # the cache root when a sub-directory is configured, in a sibling sub-directory): the oracle tells which file was
+        # served.  `judge` is the same rule as in B: first cached ancestor of the requested format IN THE CONFIGURED PLACE,
+        # converted forward; else an error, or the fresh rendering if the fallback is on.
+        from capellambse.filehandler import memory as fhmemory
+        d_stats = {"renders": 0, "hit": 0, "miss-error": 0, "miss-fallback": 0, "not-a-directory": 0, "models": 0,
+                   "handler_objects": {}, "location_specs": {}}
+        D_FMTS = list(rt_names)
+        TAGS = {uu: "A", other: "B"}
+
+        def planted(place, names):
+            """name -> content of the files of one place; the content says whose image it is and where it lies"""
+            out = {}
+            for n in names:
+                who = TAGS[n.rsplit(".", 1)[0]]
+                out[n] = (f"<svg>{who}@{place}</svg>".encode() if n.endswith(".svg") else b"\x89PNG-" + f"{who}@{place}".encode())
+            return out
+
+        ALLN = [uu + ".svg", uu + ".png", other + ".svg"]
+
+        def watched_render(model, dg, fmt):
+            """render with every open() of the model's cache handler object recorded (the class's method is wrapped for the
+            duration of the call; other instances are not recorded)"""
+            h = model.diagram_cache
+            log: list[str] = []
+            if h is None:
+                return outcome(lambda: dg.render(fmt)), log
+            cls = type(h)
+            orig = cls.open
+
+            def rec_open(self, filename, *a, **k):
+                if self is h:
+                    log.append(str(filename))
+                return orig(self, filename, *a, **k)
+            cls.open = rec_open
+            try:
+                return outcome(lambda: dg.render(fmt)), log
+            finally:
+                cls.open = orig
+
+        def judge(model, cfg, visible, everything, allow, key, what, replay, weak=False):
+            """cfg: label of the configured place; visible: name -> content there; everything: label -> {name: content} of
+            all places (configured one included)"""
+            for dg in (model.diagrams[ia], model.diagrams[ib]):
+                for fmt in D_FMTS:
+                    res, opened = watched_render(model, dg, fmt)
+                    d_stats["renders"] += 1
+                    S.sources = {}
+                    for lab, fs in everything.items():
+                        for n, c in fs.items():
+                            S.sources[("b", c)] = ["B", lab + "|" + n]
+                            S.sources[("s", c.decode("utf-8", "replace"))] = ["S", lab + "|" + n]
+                    fr_svg = fresh[dg.uuid, "svg"]
+                    if isinstance(fr_svg, str):
+                        S.sources[("s", fr_svg)] = [ids["SVGFormat"], [ids["convert_svgdiagram"], b"fresh"]]
+                    sres = res if isinstance(res, Err) else [ids["convert_svgdiagram"], b"fresh"] if type(res).__name__ == "SVGDiagram" else S.sym(res)
+                    chain = own_chain(fmt)
+                    exp_open, hit = [], None
+                    for i, cv in enumerate(chain):
+                        e = getattr(cv, "filename_extension", None)
+                        if e and hasattr(cv, "from_cache"):
+                            exp_open.append(dg.uuid + e)
+                            if dg.uuid + e in visible:
+                                hit = (i, cv, dg.uuid + e)
+                                break
+                    if weak:
+                        # the configured place is not a directory: no file can be served from it, and nothing else may be
+                        kind, ok, exp_desc = "not-a-directory", isinstance(res, Err), "an error (the configured place is not a directory)"
+                        exp_open = opened
+                    elif hit:
+                        i, cv, fn = hit
+                        exp_sym = [{".svg": "S", ".png": "B"}[cv.filename_extension], cfg + "|" + fn]
+                        for c2 in reversed(chain[:i]):
+                            exp_sym = [ids[c2.__name__], exp_sym]
+                        kind, ok = "hit", sres == exp_sym
+                        exp_desc = f"{fn} of {cfg} ({visible[fn]!r}) converted through {[c2.__name__ for c2 in reversed(chain[:i])]}"
+                    elif allow:
+                        fr = fresh[dg.uuid, fmt]
+                        kind = "miss-fallback"
+                        ok = (res == fr) if not (isinstance(fr, Err) or isinstance(res, Err)) else (isinstance(fr, Err) and isinstance(res, Err) and fr == res)
+                        if type(fr).__name__ == "SVGDiagram":
+                            ok = type(res).__name__ == "SVGDiagram"
+                        exp_desc = "the same as rendering without a cache"
+                    else:
+                        kind, ok, exp_desc = "miss-error", res == Err("RuntimeError"), "RuntimeError (not in cache)"
+                    d_stats[kind] += 1
+                    k2 = f"{key}:allow={allow}:fmt={fmt}:dg={TAGS[dg.uuid]}"
+                    chk.note_case(k2, nontrivial=True)
+                    if not ok or opened != exp_open:
+                        served = sres
+                        while isinstance(served, list) and len(served) == 2 and isinstance(served[0], int):
+                            served = served[1]
+                        chk.violation(k2, f"{what}: render({fmt!r}) of diagram {TAGS[dg.uuid]} ({dg.uuid}), fallback={allow}, opened {opened} and "
+                                      f"returned {res!r:.100} (source: {served!r:.80}); expected to open {exp_open} and return {exp_desc}",
+                                      dict(replay, fallback_render_aird=allow, fmt=fmt, diagram_uuid=dg.uuid, opened=opened, result=repr(res)[:300],
+                                           files_in_configured_place={n: c.decode("latin-1") for n, c in visible.items()},
+                                           files_in_other_places={lab: sorted(fs) for lab, fs in everything.items() if lab != cfg}))
+                    if not weak:
+                        names = sorted(visible)
+                        ftag = lambda lab: (b"f%d" % names.index(lab.split("|", 1)[1])) if lab.startswith(cfg + "|") else b"decoy:" + lab.encode()   # noqa: E731
+                        fr_in = fresh[dg.uuid, None]
+                        rcases.append(([fmt, [[n, b"f%d" % j] for j, n in enumerate(names)], allow, dg.uuid, [], [],
+                                        b"fresh" if not isinstance(fr_in, Err) else fr_in], [opened, to_model(sres, ids, ftag)]))
+                        rdesc.append({"way": key, "allow": allow, "fmt": fmt, "files": names, "diagram": dg.uuid})
+
+        # ---- D1. handler objects: every class that satisfies the FileHandler interface, in every state
+        class DictHandler(fhabc.FileHandler):
+            """the interface and nothing else: a dict of files"""
+
+            def __init__(self):
+                super().__init__("dict:")
+                self.files: dict[str, bytes] = {}
+
+            def open(self, filename, mode="rb"):
+                if "w" in mode:
+                    raise AssertionError("diagram cache lookups must not write")
+                if str(filename) in self.files:
+                    return io.BytesIO(self.files[str(filename)])
+                raise FileNotFoundError(str(filename))
+
+            def put(self, files):
+                self.files = dict(files)
+
+        class LenIsFileCount(DictHandler):
+            """a container-like handler: len() is the number of files, so it is falsy exactly while it is empty"""
+
+            def __len__(self):
+                return len(self.files)
+
+            def __contains__(self, name):
+                return str(name) in self.files
+
+            def __iter__(self):
+                return iter(sorted(self.files))
+
+        class AlwaysFalsy(DictHandler):
+            """unusual truthiness: __len__ is 0 and __bool__ is False whatever it holds"""
+
+            def __len__(self):
+                return 0
+
+            def __bool__(self):
+                return False
+
+            def __contains__(self, name):
+                return False
+
+        class MemHandler:
+            """capellambse's own in-memory handler behind the same put() as the classes above"""
+
+            def __init__(self, subdir=None):
+                self.h = fhmemory.MemoryFileHandler() if subdir is None else fhmemory.MemoryFileHandler(subdir=subdir)
+                self.subdir = subdir
+
+            def put(self, files, decoys=None):
+                # the keys of MemoryFileHandler's store are absolute-less posix paths below its root
+                self.h._data.clear()
+                for n, c in files.items():
+                    self.h.write_file(n, c)
+                for n, c in (decoys or {}).items():
+                    self.h._data[pathlib.PurePosixPath(n)] = bytearray(c)
+
+        class RecMemory(fhmemory.MemoryFileHandler):
+            """a subclass of the in-memory handler (user code deriving from a shipped handler)"""
+            is_subclass = True
+
+        HKINDS = {
+            "DictHandler": lambda: DictHandler(),
+            "falsy-wrapper:len-is-file-count": lambda: LenIsFileCount(),
+            "falsy-wrapper:len0-bool-false": lambda: AlwaysFalsy(),
+            "MemoryFileHandler": lambda: MemHandler(),
+            "MemoryFileHandler(subdir)": lambda: MemHandler("sub/deeper"),
+            "MemoryFileHandler-subclass": None,
+        }
+
+        def mk_handler(kind):
+            if kind == "MemoryFileHandler-subclass":
+                w = MemHandler()
+                w.h = RecMemory()
+                return w
+            return HKINDS[kind]()
+
+        SEQS = {   # states the handler goes through; the model is built where "LOAD" stands
+            "empty-at-load,filled-later": [{}, "LOAD", {}, ALLN, [uu + ".png"], {}],
+            "filled-at-load,changed-later": [ALLN, "LOAD", ALLN, [other + ".svg"], {}, [uu + ".svg"]],
+            "one-file-at-load,emptied-later": [[other + ".svg"], "LOAD", [other + ".svg"], {}, ALLN],
+        }
+        for hk in HKINDS:
+            for sname, seq in SEQS.items():
+                for allow in (False, True):
+                    w = mk_handler(hk)
+                    hobj = getattr(w, "h", w)
+                    model, step = None, 0
+                    key = f"handler-object:{hk}:{sname}"
+                    replay = {"diagram_cache": f"an instance of {hk}", "handler_states": repr(seq)}
+                    for st in seq:
+                        if st == "LOAD":
+                            model = capellambse.MelodyModel(aird, diagram_cache=hobj, fallback_render_aird=allow)
+                            d_stats["models"] += 1
+                            continue
+                        step += 1
+                        files = planted(f"state{step}", list(st))
+                        if isinstance(w, MemHandler):
+                            sd = w.subdir
+                            decoys = {} if sd is None else {n: c for n, c in planted("root-of-the-handler", ALLN).items()}
+                            if sd is not None:
+                                decoys.update({"sub/" + n: c for n, c in planted("parent-of-the-subdir", ALLN).items()})
+                            w.put(files, decoys)
+                            everything = {f"state{step}": files, "root-of-the-handler": planted("root-of-the-handler", ALLN),
+                                          "parent-of-the-subdir": planted("parent-of-the-subdir", ALLN)}
+                        else:
+                            w.put(files)
+                            everything = {f"state{step}": files}
+                        if model is None:
+                            continue
+                        if model.diagram_cache is not hobj:
+                            # lookups must go to exactly the object that was handed in
+                            r = outcome(lambda: model.diagrams[ia].render("svg"))
+                            chk.violation(f"cache-handler-ignored:{hk}:{sname}:allow={allow}",
+                                          f"a model given an instance of {hk} as diagram_cache ({'empty' if not seq[0] else 'holding files'} at load time) "
+                                          f"has diagram_cache = {model.diagram_cache!r:.60}: the handler is ignored (render('svg') with "
+                                          f"{sorted(files)} in it, fallback={allow}: {r!r:.80})",
+                                          dict(replay, fallback_render_aird=allow, bool_of_handler=outcome(lambda: bool(hobj)),
+                                               files_in_handler_now=sorted(files)))
+                            break
+                        judge(model, f"state{step}", files, everything, allow, f"{key}:step{step}", f"diagram_cache = instance of {hk}, {sname}, state {step}",
+                              dict(replay, step=step))
+                    d_stats["handler_objects"][hk] = d_stats["handler_objects"].get(hk, 0) + 1
+
+        # ---- D2. locations: every way of naming one x root (the model's own path / a sub-directory of it / elsewhere) x subdir
+        loc = tmp / "loc"
+        M = loc / "model"
+        shutil.copytree(lib.REPO / MODEL_DIR, M)
+        O = loc / "other"
+        DIRS = {"next-to-the-model": M, "model/sub": M / "sub", "model/sib": M / "sib", "model/sub/sub": M / "sub" / "sub",
+                "other": O, "other/sub": O / "sub", "other/sib": O / "sib"}
+        for lab, d_ in DIRS.items():
+            d_.mkdir(parents=True, exist_ok=True)
+        label_of = {str(v): k for k, v in DIRS.items()}
+
+        def plant_all(hole=None):
+            """all files everywhere; `hole`: that place loses the files of diagram A (the decoys keep theirs)"""
+            ev = {}
+            for lab, d_ in DIRS.items():
+                names = [n for n in ALLN if not (lab == hole and n.startswith(uu))]
+                for n in ALLN:
+                    if (d_ / n).exists():
+                        (d_ / n).unlink()
+                ev[lab] = planted(lab, names)
+                for n, c in ev[lab].items():
+                    (d_ / n).write_bytes(c)
+            return ev
+
+        specs = []      # (label, model path argument, make spec(allow) -> (args, kw), configured dir or None if not a directory)
+        for mform, mpath in (("dir-str", str(M)), ("dir-Path", M), ("file-str", str(M / AIRD))):
+            roots = [("model-path", mpath)]
+            if mform == "file-str":
+                roots.append(("model-dir", str(M)))
+            roots += [("subdir-of-model", str(M / "sub")), ("elsewhere", str(O))]
+            for rname, root in roots:
+                isfile = pathlib.Path(root).is_file()
+                for sd in (None, "sub"):
+                    place = None if isfile else (pathlib.Path(root) / sd if sd else pathlib.Path(root))
+                    shapes = ["dict", "modelinfo", "local-handler", "get_filehandler"]
+                    if sd is None:
+                        shapes += ["str", "Path", "url"]
+                    for shape in shapes:
+                        if isfile and shape in ("local-handler", "get_filehandler", "Path", "url"):
+                            continue
+                        if mform != "dir-str" and shape in ("url", "get_filehandler", "local-handler") and rname != "model-path":
+                            continue        # these do not look at the model path: once is enough
+                        specs.append((f"{mform}:{shape}:{rname}:subdir={sd}", mpath, shape, root, sd, place))
+        for label, mpath, shape, root, sd, place in specs:
+            sdkw = {} if sd is None else {"subdir": sd}
+            same_as_model = shape == "str" and root == mpath
+            for allow in ((False, True) if (rng.random() < 0.34 or "model-path" in label) else (False,)):
+                if place is None and allow and not same_as_model:
+                    continue
+                kw = {"fallback_render_aird": allow}
+                rootobj = root          # for the root "model-path" this IS the object the model is loaded from (str or Path)
+                if shape == "dict":
+                    spec = {"path": rootobj, **sdkw}
+                elif shape == "modelinfo":
+                    spec = None
+                    kw = {"path": mpath, "diagram_cache": {"path": rootobj, **sdkw}, "fallback_render_aird": allow}
+                elif shape == "local-handler":
+                    spec = fhlocal.LocalFileHandler(root, **sdkw)
+                elif shape == "get_filehandler":
+                    spec = capellambse.filehandler.get_filehandler(root, **sdkw)
+                elif shape == "str":
+                    spec = rootobj if isinstance(rootobj, str) else str(rootobj)
+                elif shape == "Path":
+                    spec = pathlib.Path(root)
+                else:
+                    spec = pathlib.Path(root).as_uri()
+                key = f"location:{label}"
+                replay = {"model_path": repr(mpath), "diagram_cache": repr(spec) if spec is not None else repr(kw["diagram_cache"]),
+                          "how": shape, "layout": {k: str(v) for k, v in DIRS.items()}}
+                try:
+                    if shape == "modelinfo":
+                        model = capellambse.MelodyModel(**kw)
+                    else:
+                        model = capellambse.MelodyModel(mpath, diagram_cache=spec, **kw)
+                except Exception as e:  # noqa: BLE001
+                    chk.violation(f"{key}:load", f"MelodyModel({mpath!r}, diagram_cache={replay['diagram_cache']}) raises {type(e).__name__}: {e}", replay)
+                    continue
+                d_stats["models"] += 1
+                d_stats["location_specs"][shape] = d_stats["location_specs"].get(shape, 0) + 1
+                if same_as_model and pathlib.Path(root).is_file():
+                    place_eff = M               # "same as the model path" for a model given by its .aird file: the model's directory
+                else:
+                    place_eff = place
+                what = f"model loaded from {mform}, diagram_cache given as {shape} {replay['diagram_cache']}"
+                if place_eff is None:
+                    ev = plant_all()
+                    judge(model, "nowhere", {}, ev, allow, key + ":full", what, replay, weak=True)
+                    continue
+                cfg = label_of[str(place_eff)]
+                for hole in (None, cfg):
+                    ev = plant_all(hole)
+                    judge(model, cfg, ev[cfg], ev, allow, key + (":hole" if hole else ":full"),
+                          what + (" (the configured place has no file of diagram A, the other places have)" if hole else ""), replay)
+        chk.coverage["cache_objects_and_locations"] = d_stats
+        lap("objects+locations")
         n_render = len(rcases)
         seen_r, uc, ud = set(), [], []
         for c_, d_ in zip(rcases, rdesc):        # the ways differ in how the handler is built, not in what the model is asked
